@@ -91,5 +91,42 @@ func sweeps(c *corr.Ctx) {
 			}
 		}
 	}
-	_ = corr.Hex
+	longRuns(c)
+}
+
+// longRuns: one Encode call that yields more than 256 (thorough tier: also more than 65536)
+// packets at the smallest workable limits, followed by further calls through the same encoder /
+// decoder pair: a counter narrower than the sequence number must not leak into the numbering (the
+// generic C06 clause tracks the expected sequence number across the frames of a case).
+func longRuns(c *corr.Ctx) {
+	r := c.Rng
+	for i := 0; i < c.N(2, 12); i++ {
+		n := 257 + r.IntN(500)
+		huge := !c.Quick() && i%6 == 0
+		if huge {
+			n = 65537 + r.IntN(200)
+		}
+		seq0 := uint16(r.IntN(65536))
+		// AV1, limit 3: a last OBU advances 2 bytes per packet (no length), any other OBU 1 byte per packet
+		max := 3 + r.IntN(2)
+		var first cu.Frame
+		if i%2 == 0 {
+			first = cu.Frame{randBytes(r, n*(max-1)-r.IntN(max-1))} // single OBU, W-counted fragments
+		} else {
+			first = cu.Frame{randBytes(r, n*(max-2)+1), randBytes(r, 1+r.IntN(5))} // length-prefixed fragments
+		}
+		cu.RoundTrip(c, Av1, cu.EncParams{PT: 96, SSRC: r.Uint32(), Seq0: seq0, Max: max}, func(*cu.Instance) []cu.Frame {
+			return []cu.Frame{first, {randBytes(r, 1+r.IntN(4)), randBytes(r, 1+r.IntN(4))}, {randBytes(r, 300*(max-1))}}
+		}, fmt.Sprintf("av1-longrun-%d", i))
+		// VP8, limit 2 (or 3): 1 (2) bytes per packet
+		vmax := 2 + r.IntN(2)
+		cu.RoundTrip(c, Vp8, cu.EncParams{PT: 96, SSRC: r.Uint32(), Seq0: seq0, Max: vmax}, func(*cu.Instance) []cu.Frame {
+			return []cu.Frame{{randBytes(r, n*(vmax-1)-r.IntN(vmax-1))}, {randBytes(r, 1+r.IntN(3*vmax))}, {randBytes(r, 300*(vmax-1))}}
+		}, fmt.Sprintf("vp8-longrun-%d", i))
+		// VP9, limit 12: 9 bytes per packet (1 in the first packet of a key frame)
+		cu.RoundTrip(c, Vp9, cu.EncParams{PT: 96, SSRC: r.Uint32(), Seq0: seq0, Max: 12}, func(*cu.Instance) []cu.Frame {
+			mk := func(k int) []byte { h := vp9GenHeader(r); return append(h, randBytes(r, k)...) }
+			return []cu.Frame{{mk(n * 9)}, {mk(1 + r.IntN(30))}, {mk(300 * 9)}}
+		}, fmt.Sprintf("vp9-longrun-%d", i))
+	}
 }
